@@ -121,24 +121,24 @@ func (o OptValue) MarshalJSON() ([]byte, error) {
 }
 
 type rawSchema struct {
-	Kind    string          `json:"kind"`
-	Min     *OptInt         `json:"min,omitempty"`
-	Max     *OptInt         `json:"max,omitempty"`
-	Units   *OptStr         `json:"units,omitempty"`
-	Pattern *OptStr         `json:"pattern,omitempty"`
-	Typed   *bool           `json:"typed,omitempty"`
-	Items   *Schema         `json:"items,omitempty"`
-	Keys    *Schema         `json:"keys,omitempty"`
-	Values  json.RawMessage `json:"values,omitempty"`
-	ID      string          `json:"id,omitempty"`
-	Props   []*Prop         `json:"props,omitempty"`
-	Layout  string          `json:"layout,omitempty"`
-	Disc    string          `json:"disc,omitempty"`
-	Field   string          `json:"field,omitempty"`
-	Inlined bool            `json:"inlined,omitempty"`
+	Kind    string              `json:"kind"`
+	Min     *OptInt             `json:"min,omitempty"`
+	Max     *OptInt             `json:"max,omitempty"`
+	Units   *OptStr             `json:"units,omitempty"`
+	Pattern *OptStr             `json:"pattern,omitempty"`
+	Typed   *bool               `json:"typed,omitempty"`
+	Items   *Schema             `json:"items,omitempty"`
+	Keys    *Schema             `json:"keys,omitempty"`
+	Values  json.RawMessage     `json:"values,omitempty"`
+	ID      string              `json:"id,omitempty"`
+	Props   []*Prop             `json:"props,omitempty"`
+	Layout  string              `json:"layout,omitempty"`
+	Disc    string              `json:"disc,omitempty"`
+	Field   string              `json:"field,omitempty"`
+	Inlined bool                `json:"inlined,omitempty"`
 	Members [][]json.RawMessage `json:"members,omitempty"`
-	Root    string          `json:"root,omitempty"`
-	Objects []*Schema       `json:"objects,omitempty"`
+	Root    string              `json:"root,omitempty"`
+	Objects []*Schema           `json:"objects,omitempty"`
 }
 
 func (s *Schema) UnmarshalJSON(b []byte) error {
@@ -260,13 +260,13 @@ func (s *Schema) MarshalJSON() ([]byte, error) {
 // STAGE 2 extension point: struct-mapped objects add K = "struct" with T (catalogue id) and
 // Fields [[name, Opt(value)]..].
 type Value struct {
-	K     string
-	Rep   string
-	B     bool        // bool
-	N     int64       // int: model integer; float: half units
-	S     string      // str / re: token id; fspecial: nan|+inf|-inf; junk: class
-	List  []*Value    // list
-	Pairs [][2]*Value // map
+	K      string
+	Rep    string
+	B      bool          // bool
+	N      int64         // int: model integer; float: half units
+	S      string        // str / re: token id; fspecial: nan|+inf|-inf; junk: class
+	List   []*Value      // list
+	Pairs  [][2]*Value   // map
 	T      string        // struct: layout id
 	Fields []StructField // struct: one per declared property
 }
